@@ -250,14 +250,16 @@ PROPS['C20'] = dict(
 
 PROPS['C03'] = dict(
     level='proof',
-    technique='Verus contracts on the real text of mod_exp_u64 / galois_element / galois_element_inv with number-theoretic lemmas (g*g^(M-1) == 1 mod 2^k)',
-    level_text='Unbounded proof: mod_exp_u64(x,e) == x^e mod 2^64 for all x,e; galois_element follows the sign convention and equals 5^|k| mod 2N; galois_element_inv(g)*g == 1 mod 2N for every odd g and every power-of-two order <= 2^33.',
-    level_note='Only the Galois-group arithmetic of the key-switching family; the gadget products, noise bounds and trace/packing semantics are not decidable here.',
-    units=[V('galois', lemmas=['lemma_odd_pow', 'lemma_galois_inverse']),
+    technique='Verus contracts on the real text of mod_exp_u64 / galois_element / galois_element_inv with number-theoretic lemmas (g*g^(M-1) == 1 mod 2^k); dependency-flow and radix-discipline contracts on the real text of the key-switching glue (gglwe_product_dft, glwe_keyswitch_internal, glwe_keyswitch, glwe_automorphism, glwe_automorphism_add) over assumed flow contracts of the transform-domain HAL operations',
+    level_text='Unbounded proof: mod_exp_u64(x,e) == x^e mod 2^64 for all x,e; galois_element follows the sign convention and equals 5^|k| mod 2N; galois_element_inv(g)*g == 1 mod 2N for every odd g and every power-of-two order <= 2^33. Key-switching glue, for EVERY digit size, digit count, rank, limb count and input/key/output radix admitted by the API: no panic (every set_size within capacity, no underflow in the digit-group limb counts, every inner scratch assertion holds with exactly the advertised bytes), no stale scratch or result bytes reach the output (the accumulator must be cleared: for dsize >= 3 its last limbs are only added to), and every coefficient-domain vector folded into the key-switch accumulator is expressed in the key radix (the re-normalised copy, not the original operand, in the cross-radix branch).',
+    level_note='The glue statements are about which inputs reach the output and in which radix, not about values: that the gadget product decrypts to the expected image within the noise bound needs exact DFT products (C07) and is undecided, as are trace / packing / LWE conversion semantics and the sub / sub_negate / assign variants of the automorphism (same structure, not yet extracted).',
+    units=[V('galois', lemmas=['lemma_odd_pow', 'lemma_galois_inverse']), V('core_keyswitch'),
            K('poulpy-cpu-ref', 'verif_kani', ['c03_mask_mod_u64'], cls='complete', timeout=300, functions=['leaf fact x & (m-1) == x mod m (u64)'])],
-    trusted_base=VERUS_TRUST + ['assumed specifications of i64::unsigned_abs, i64::signum, u64::is_power_of_two'],
+    trusted_base=VERUS_TRUST + CORE_TRUST + ['assumed specifications of i64::unsigned_abs, i64::signum, u64::is_power_of_two',
+                  'A-AUT: none needed after fix cfd9678 (glwe_automorphism_tmp_bytes now adds the big-accumulator automorphism / normalisation bytes)',
+                  'vrad(v): limb radix of a coefficient-domain vector as an uninterpreted attribute; GLWE operands satisfy vrad(data) == base2k (precondition), glwe_normalize establishes it (restated contract)'],
     assumptions=[],
-    remainder='everything that multiplies polynomials (gadget product), noise bounds, trace/packing/LWE conversion semantics',
+    remainder='everything that multiplies polynomials (gadget product value), noise bounds, trace/packing/LWE conversion semantics, the remaining automorphism variants, GGLWE/GGSW key-switch wrappers',
 )
 
 BOUNDED_EXPL = 'bounded symbolic execution of the real code under the stated shape bounds (values fully symbolic); not a proof'
